@@ -8,6 +8,7 @@ Used by `Props/C09.lean` (join completeness) and `Props/C10.lean` (order indepen
 import LnnVerif.Model.Fol
 import Mathlib.Data.List.Nodup
 import Mathlib.Data.List.Perm.Basic
+import Mathlib.Tactic.Tauto
 
 namespace LNN
 namespace Join
@@ -296,6 +297,863 @@ theorem foldl_foj_wf :
     rw [List.foldl_cons]
     exact foldl_foj_wf rs (foj acc R) (foj_wf h (hr R List.mem_cons_self))
       (fun R' hR' => hr R' (List.mem_cons_of_mem _ hR'))
+
+theorem foldJoin_complete (σ : Nat → Nat) (rels : List Rel) (hne : rels ≠ [])
+    (h : ∀ R ∈ rels, R.cols.map σ ∈ R.rows) :
+    ∃ J, foldJoin rels = some J ∧ J.cols.map σ ∈ J.rows ∧
+      ∀ c, c ∈ J.cols ↔ ∃ R ∈ rels, c ∈ R.cols := by
+  cases rels with
+  | nil => exact absurd rfl hne
+  | cons R rs =>
+    refine ⟨rs.foldl foj R, rfl, ?_, ?_⟩
+    · exact foldl_foj_complete σ rs R (h R List.mem_cons_self)
+        (fun R' hR' => h R' (List.mem_cons_of_mem _ hR'))
+    · intro c
+      rw [foldl_foj_cols]
+      simp only [List.mem_cons, exists_eq_or_imp]
+
+theorem foldJoin_wf {rels : List Rel} {J : Rel} (hJ : foldJoin rels = some J)
+    (h : ∀ R ∈ rels, WfRel R) : WfRel J := by
+  cases rels with
+  | nil => cases hJ
+  | cons R rs =>
+    simp only [foldJoin, Option.some.injEq] at hJ
+    subst hJ
+    exact foldl_foj_wf rs R (h R List.mem_cons_self) (fun R' hR' => h R' (List.mem_cons_of_mem _ hR'))
+
+theorem exists_mem_zip_of_mem_right {A B : Type} :
+    ∀ {l₁ : List A} {l₂ : List B}, l₁.length = l₂.length → ∀ {b : B}, b ∈ l₂ →
+      ∃ a, (a, b) ∈ l₁.zip l₂
+  | _, [], _, _, hb => by cases hb
+  | [], _ :: _, hl, _, _ => by simp at hl
+  | a :: l₁, b' :: l₂, hl, b, hb => by
+    rcases List.mem_cons.mp hb with rfl | hb
+    · exact ⟨a, by simp⟩
+    · obtain ⟨a', ha'⟩ := exists_mem_zip_of_mem_right (l₁ := l₁) (l₂ := l₂) (by simpa using hl) hb
+      exact ⟨a', by simp [ha']⟩
+
+/-! ### tables: keys -/
+
+section Tables
+variable {ι : Type} [DecidableEq ι] {α : Type}
+
+theorem has_iff_mem_keys {t : Table α} {g : Gr} : t.has g = true ↔ g ∈ t.keys := by
+  simp [Table.has, Table.find?, Table.keys]
+
+theorem mem_keys_addg {w : Bounds α} {g : Gr} :
+    ∀ {gs : List Gr} {t : Table α}, g ∈ (Table.addg w t gs).keys ↔ g ∈ t.keys ∨ g ∈ gs
+  | [], t => by simp [Table.addg]
+  | g' :: gs, t => by
+    simp only [Table.addg]
+    split
+    · rename_i h
+      rw [mem_keys_addg (gs := gs), List.mem_cons]
+      have hk := has_iff_mem_keys.mp h
+      constructor
+      · rintro (h | h)
+        · exact .inl h
+        · exact .inr (.inr h)
+      · rintro (h | rfl | h)
+        · exact .inl h
+        · exact .inl hk
+        · exact .inr h
+    · rw [mem_keys_addg (gs := gs)]
+      simp only [Table.keys, List.map_append, List.map_cons, List.map_nil, List.mem_append,
+        List.mem_cons]
+      tauto
+
+theorem keys_setB (t : Table α) (g : Gr) (b : Bounds α) : (t.setB g b).keys = t.keys := by
+  simp only [Table.setB, Table.keys, List.map_map]
+  apply List.map_congr_left
+  intro r _
+  simp only [Function.comp]
+  split <;> rfl
+
+/-! ### `FState.get` / `FState.set` -/
+
+theorem get_set_self (s : FState ι α) (i : ι) (t : Table α) : (s.set i t).get i = t := by
+  simp [FState.get, FState.set]
+
+theorem get_set_ne (s : FState ι α) {i j : ι} (h : i ≠ j) (t : Table α) :
+    (s.set i t).get j = s.get j := by
+  have e : (fun a : ι × Table α => decide ((!decide (a.1 = i)) = true ∧ decide (a.1 = j) = true)) =
+      fun a => decide (a.1 = j) := by
+    funext a
+    by_cases ha : a.1 = j
+    · simp [ha]
+      exact fun h' => h (h'.symm)
+    · simp [ha]
+  simp only [FState.get, FState.set, List.find?_cons, h, decide_false, List.find?_filter, e]
+
+/-! ### `addAll` -/
+
+theorem addAll_cons (kb : FKB ι α) (s : FState ι α) (p : ι × List Gr) (ps : List (ι × List Gr)) :
+    addAll kb s (p :: ps) =
+      addAll kb (s.set p.1 (Table.addg (kb p.1).world (s.get p.1) p.2)) ps := rfl
+
+/-- the keys after `addAll` are exactly the old keys plus the requested groundings -/
+theorem mem_keys_addAll (kb : FKB ι α) (g : Gr) (j : ι) :
+    ∀ (pairs : List (ι × List Gr)) (s : FState ι α),
+      g ∈ ((addAll kb s pairs).get j).keys ↔ g ∈ (s.get j).keys ∨ ∃ p ∈ pairs, p.1 = j ∧ g ∈ p.2
+  | [], s => by simp [addAll]
+  | p :: ps, s => by
+    rw [addAll_cons, mem_keys_addAll kb g j ps]
+    simp only [List.mem_cons, exists_eq_or_imp]
+    by_cases hp : p.1 = j
+    · subst hp
+      rw [get_set_self, mem_keys_addg]
+      simp only [true_and]
+      tauto
+    · rw [get_set_ne _ hp]
+      simp only [hp, false_and, false_or]
+
+/-! ### `groundings` -/
+
+def relsOf (kb : FKB ι α) (i : ι) (s : FState ι α) : List Rel :=
+  (List.zip (kb i).ops (kb i).opmap).map fun p => (⟨p.2, (s.get p.1).keys⟩ : Rel)
+
+def ogsOf (n : FNode ι α) (j : Rel) : List Gr :=
+  j.rows.map fun r => Rel.project j.cols r (List.range (numVars n))
+
+def perOf (n : FNode ι α) (j : Rel) : List (List Gr) :=
+  n.opmap.map fun m => j.rows.map fun r => Rel.project j.cols r m
+
+theorem groundings_hetero (kb : FKB ι α) (i : ι) (down : Bool) (s : FState ι α) {j : Rel}
+    (hh : isHomogeneous (kb i) = false) (hj : foldJoin (relsOf kb i s) = some j)
+    (hne : j.rows.isEmpty = false) :
+    groundings kb i down s =
+      (addAll kb (addAll kb s (List.zip (kb i).ops (perOf (kb i) j))) [(i, ogsOf (kb i) j)],
+        some (ogsOf (kb i) j, perOf (kb i) j)) := by
+  unfold relsOf at hj
+  unfold groundings
+  simp only [hh, Bool.false_eq_true, if_false, hj, hne]
+  rfl
+
+def homGs (kb : FKB ι α) (i : ι) (down : Bool) (s : FState ι α) : List Gr :=
+  unionKeys (((kb i).ops.map fun j => (s.get j).keys) ++ (if down then [(s.get i).keys] else []))
+
+theorem groundings_homog (kb : FKB ι α) (i : ι) (down : Bool) (s : FState ι α)
+    (hh : isHomogeneous (kb i) = true) :
+    groundings kb i down s =
+      (addAll kb (addAll kb s ((kb i).ops.map fun j => (j, homGs kb i down s)))
+          [(i, homGs kb i down s)],
+        some (homGs kb i down s, (kb i).ops.map fun _ => homGs kb i down s)) := by
+  unfold groundings
+  simp only [hh, if_true]
+  rfl
+
+theorem mem_relsOf {kb : FKB ι α} {i : ι} {s : FState ι α} {R : Rel} :
+    R ∈ relsOf kb i s ↔
+      ∃ p ∈ List.zip (kb i).ops (kb i).opmap, R = ⟨p.2, (s.get p.1).keys⟩ := by
+  unfold relsOf
+  rw [List.mem_map]
+  constructor
+  · rintro ⟨p, hp, rfl⟩; exact ⟨p, hp, rfl⟩
+  · rintro ⟨p, hp, rfl⟩; exact ⟨p, hp, rfl⟩
+
+theorem relsOf_ne_nil {kb : FKB ι α} {i : ι} (s : FState ι α)
+    (hh : isHomogeneous (kb i) = false) (hlen : (kb i).ops.length = (kb i).opmap.length) :
+    relsOf kb i s ≠ [] := by
+  unfold relsOf
+  unfold isHomogeneous at hh
+  cases hm : (kb i).opmap with
+  | nil => rw [hm] at hh; simp at hh
+  | cons m ms =>
+    cases ho : (kb i).ops with
+    | nil => rw [hm, ho] at hlen; simp at hlen
+    | cons j js => simp
+
+theorem groundings_hetero_none (kb : FKB ι α) (i : ι) (down : Bool) (s : FState ι α)
+    (hh : isHomogeneous (kb i) = false) (hj : foldJoin (relsOf kb i s) = none) :
+    groundings kb i down s = (s, none) := by
+  unfold relsOf at hj
+  unfold groundings
+  simp only [hh, Bool.false_eq_true, if_false, hj]
+
+theorem groundings_hetero_empty (kb : FKB ι α) (i : ι) (down : Bool) (s : FState ι α) {j : Rel}
+    (hh : isHomogeneous (kb i) = false) (hj : foldJoin (relsOf kb i s) = some j)
+    (hne : j.rows.isEmpty = true) :
+    groundings kb i down s = (s, none) := by
+  unfold relsOf at hj
+  unfold groundings
+  simp only [hh, Bool.false_eq_true, if_false, hj, hne, if_true]
+
+/-- `groundings` never removes a row -/
+theorem groundings_keys_mono (kb : FKB ι α) (i : ι) (down : Bool) (s : FState ι α) (j : ι) (g : Gr)
+    (h : g ∈ (s.get j).keys) : g ∈ ((groundings kb i down s).1.get j).keys := by
+  cases hh : isHomogeneous (kb i) with
+  | true =>
+    rw [groundings_homog kb i down s hh]
+    simp only [mem_keys_addAll]
+    exact .inl (.inl h)
+  | false =>
+    cases hj : foldJoin (relsOf kb i s) with
+    | none => rw [groundings_hetero_none kb i down s hh hj]; exact h
+    | some J =>
+      cases hne : J.rows.isEmpty with
+      | true => rw [groundings_hetero_empty kb i down s hh hj hne]; exact h
+      | false =>
+        rw [groundings_hetero kb i down s hh hj hne]
+        simp only [mem_keys_addAll]
+        exact .inl (.inl h)
+
+/-! ### `fUpConn` only rewrites bounds -/
+
+section Up
+variable [Field α] [LinearOrder α]
+
+theorem keys_aggRow (t : Table α) (g : Gr) (sel : BoundSel) (new : Bounds α) :
+    (aggRow t g sel new).1.keys = t.keys := by
+  unfold aggRow
+  split
+  · simp only [keys_setB]
+  · rfl
+
+theorem foldl_aggRow_keys (items : List (Gr × Bounds α)) :
+    ∀ acc : Table α × α,
+      (items.foldl (fun (acc : Table α × α) it =>
+        ((aggRow acc.1 it.1 .both it.2).1, acc.2 + (aggRow acc.1 it.1 .both it.2).2)) acc).1.keys
+        = acc.1.keys := by
+  induction items with
+  | nil => intro acc; rfl
+  | cons it items ih =>
+    intro acc
+    rw [List.foldl_cons, ih]
+    exact keys_aggRow _ _ _ _
+
+/-- upward inference leaves the set of rows of every table as `groundings` made it -/
+theorem fUpConn_keys (kb : FKB ι α) (i : ι) (s : FState ι α) (j : ι) :
+    ((fUpConn kb i s).1.get j).keys = ((groundings kb i false s).1.get j).keys := by
+  unfold fUpConn
+  generalize groundings kb i false s = G
+  obtain ⟨s1, _ | ⟨ogs, per⟩⟩ := G
+  · rfl
+  · simp only
+    by_cases hij : i = j
+    · subst hij
+      rw [get_set_self]
+      exact foldl_aggRow_keys _ _
+    · rw [get_set_ne _ hij]
+
+end Up
+
+end Tables
+
+end Join
+
+/-! ### tables as finite maps -/
+
+/-- the finite map denoted by a table: grounding ↦ (leaf bounds, working bounds) -/
+def Table.denote {α : Type} (t : Table α) : Gr → Option (Bounds α × Bounds α) :=
+  fun g => (t.find? g).map fun r => (r.leaf, r.b)
+
+/-- two tables denote the same finite map -/
+def TEq {α : Type} (t t' : Table α) : Prop := ∀ g, t.denote g = t'.denote g
+
+namespace Join
+
+section Denote
+variable {α : Type}
+
+theorem find?_nil (g : Gr) : Table.find? ([] : Table α) g = none := rfl
+
+theorem find?_cons (r : Row α) (t : Table α) (g : Gr) :
+    Table.find? (r :: t) g = if r.g = g then some r else Table.find? t g := by
+  unfold Table.find?
+  rw [List.find?_cons]
+  by_cases h : r.g = g
+  · simp [h]
+  · have hb : (r.g == g) = false := beq_eq_false_iff_ne.mpr h
+    simp [hb, h]
+
+theorem find?_key {t : Table α} {g : Gr} {r : Row α} (h : Table.find? t g = some r) : r.g = g := by
+  have := List.find?_some h
+  simpa using this
+
+theorem denote_nil (g : Gr) : Table.denote ([] : Table α) g = none := rfl
+
+theorem denote_cons (r : Row α) (t : Table α) (g : Gr) :
+    Table.denote (r :: t) g = if r.g = g then some (r.leaf, r.b) else Table.denote t g := by
+  unfold Table.denote
+  rw [find?_cons]
+  split <;> rfl
+
+theorem denote_append (t t' : Table α) (g : Gr) :
+    Table.denote (t ++ t') g = (Table.denote t g).or (Table.denote t' g) := by
+  simp only [Table.denote, Table.find?, List.find?_append, Option.map_or]
+
+theorem denote_isSome (t : Table α) (g : Gr) : (Table.denote t g).isSome = t.has g := by
+  simp [Table.denote, Table.has]
+
+theorem denote_isSome_iff {t : Table α} {g : Gr} : (Table.denote t g).isSome = true ↔ g ∈ t.keys := by
+  rw [denote_isSome, has_iff_mem_keys]
+
+theorem denote_eq_none_iff {t : Table α} {g : Gr} : Table.denote t g = none ↔ g ∉ t.keys := by
+  rw [← denote_isSome_iff]
+  cases Table.denote t g <;> simp
+
+/-- `_add_groundings` as a map operation: existing entries win, the listed groundings that are
+missing appear at the world default. Only MEMBERSHIP in `gs` matters. -/
+theorem denote_addg (w : Bounds α) (g : Gr) :
+    ∀ (gs : List Gr) (t : Table α),
+      Table.denote (Table.addg w t gs) g =
+        (Table.denote t g).or (if g ∈ gs then some (w, w) else none)
+  | [], t => by simp [Table.addg]
+  | g' :: gs, t => by
+    simp only [Table.addg]
+    split
+    · rename_i h
+      rw [denote_addg w g gs t]
+      by_cases hg : g = g'
+      · subst hg
+        have hs : (Table.denote t g).isSome = true := by rw [denote_isSome]; exact h
+        obtain ⟨x, hx⟩ := Option.isSome_iff_exists.mp hs
+        simp [hx]
+      · simp [List.mem_cons, hg]
+    · rename_i h
+      rw [denote_addg w g gs _, denote_append, denote_cons, denote_nil]
+      by_cases hg : g' = g
+      · subst hg
+        have hn : Table.denote t g' = none := by
+          rw [denote_eq_none_iff, ← has_iff_mem_keys]; exact h
+        simp [hn]
+      · have hg' : ¬ g = g' := fun e => hg e.symm
+        simp [hg, hg']
+
+/-- a row-wise rewrite that keeps the keys acts pointwise on the denoted map -/
+theorem find?_map_keep (f : Row α → Row α) (hf : ∀ r, (f r).g = r.g) (g : Gr) :
+    ∀ t : Table α, Table.find? (t.map f) g = (Table.find? t g).map f
+  | [] => rfl
+  | r :: t => by
+    rw [List.map_cons, find?_cons, find?_cons, hf, find?_map_keep f hf g t]
+    split <;> rfl
+
+theorem denote_setB (t : Table α) (g : Gr) (b : Bounds α) (g' : Gr) :
+    Table.denote (t.setB g b) g' =
+      if g' = g then (Table.denote t g').map (fun x => (x.1, b)) else Table.denote t g' := by
+  unfold Table.setB Table.denote
+  rw [find?_map_keep _ (by intro r; split <;> rfl)]
+  cases h : Table.find? t g' with
+  | none => simp
+  | some r =>
+    have hk := find?_key h
+    by_cases hg : g' = g
+    · subst hg; simp [hk]
+    · have : ¬ r.g = g := by rw [hk]; exact hg
+      simp [hg, this]
+
+theorem denote_resetBounds (t : Table α) (g : Gr) :
+    Table.denote t.resetBounds g = (Table.denote t g).map (fun x => (x.1, x.1)) := by
+  unfold Table.resetBounds Table.denote
+  rw [find?_map_keep (fun r : Row α => { r with b := r.leaf }) (fun _ => rfl)]
+  cases Table.find? t g <;> rfl
+
+theorem denote_flushB (b : Bounds α) (t : Table α) (g : Gr) :
+    Table.denote (Table.flushB b t) g = (Table.denote t g).map (fun x => (x.1, b)) := by
+  unfold Table.flushB Table.denote
+  rw [find?_map_keep (fun r : Row α => { r with b := b }) (fun _ => rfl)]
+  cases Table.find? t g <;> rfl
+
+/-- `add_data` as a map operation: plain update at `g` -/
+theorem denote_addData (w : Bounds α) (t : Table α) (g : Gr) (b : Bounds α) (g' : Gr) :
+    Table.denote (Table.addData w t g b) g' = if g' = g then some (b, b) else Table.denote t g' := by
+  have hmap : ∀ u : Table α,
+      Table.denote (u.map fun r => if r.g == g then (⟨g, b, b⟩ : Row α) else r) g' =
+        if g' = g then (Table.denote u g').map (fun _ => (b, b)) else Table.denote u g' := by
+    intro u
+    unfold Table.denote
+    rw [find?_map_keep _ (by
+      intro r
+      by_cases hr : r.g = g
+      · simp [hr]
+      · simp [hr])]
+    cases h : Table.find? u g' with
+    | none => simp
+    | some r =>
+      have hk := find?_key h
+      by_cases hg : g' = g
+      · subst hg; simp [hk]
+      · have : ¬ r.g = g := by rw [hk]; exact hg
+        simp [hg, this]
+  unfold Table.addData
+  rw [hmap, denote_addg]
+  by_cases hg : g' = g
+  · subst hg
+    cases Table.denote t g' <;> simp
+  · simp [hg]
+
+theorem getD_eq_denote (w : Bounds α) (t : Table α) (g : Gr) :
+    Table.getD w t g = ((Table.denote t g).map (·.2)).getD w := by
+  unfold Table.getD Table.denote
+  cases Table.find? t g <;> rfl
+
+end Denote
+
+/-! ### the join only depends on the SETS of input rows -/
+
+/-- same set of rows -/
+def RowsEq (a b : List (List Nat)) : Prop := ∀ r, r ∈ a ↔ r ∈ b
+
+/-- same columns (as a list), same set of rows -/
+def RelEq (R R' : Rel) : Prop := R.cols = R'.cols ∧ RowsEq R.rows R'.rows
+
+theorem RowsEq.refl (a : List (List Nat)) : RowsEq a a := fun _ => Iff.rfl
+
+theorem RowsEq.of_perm {a b : List (List Nat)} (h : a.Perm b) : RowsEq a b := fun _ => h.mem_iff
+
+theorem RelEq.refl (R : Rel) : RelEq R R := ⟨rfl, RowsEq.refl _⟩
+
+theorem RowsEq.isEmpty {a b : List (List Nat)} (h : RowsEq a b) : a.isEmpty = b.isEmpty := by
+  cases a with
+  | nil =>
+    cases b with
+    | nil => rfl
+    | cons y ys => exact absurd ((h y).mpr List.mem_cons_self) List.not_mem_nil
+  | cons x xs =>
+    cases b with
+    | nil => exact absurd ((h x).mp List.mem_cons_self) List.not_mem_nil
+    | cons y ys => rfl
+
+theorem mem_pick {cu cols : List Nat} {rows : List (List Nat)} {r : List Nat} :
+    r ∈ pick cu cols rows ↔
+      cu.all cols.contains = true ∧ ∃ x ∈ rows, (cu.map fun c => (Rel.val cols x c).getD 0) = r := by
+  unfold pick
+  split
+  · rename_i h
+    simp only [h, true_and, List.mem_map]
+  · rename_i h
+    simp only [h, false_and, List.not_mem_nil, Bool.false_eq_true]
+
+theorem RowsEq.pick (cu cols : List Nat) {a b : List (List Nat)} (h : RowsEq a b) :
+    RowsEq (pick cu cols a) (pick cu cols b) := by
+  intro r
+  rw [mem_pick, mem_pick]
+  constructor
+  · rintro ⟨hc, x, hx, e⟩; exact ⟨hc, x, (h x).mp hx, e⟩
+  · rintro ⟨hc, x, hx, e⟩; exact ⟨hc, x, (h x).mpr hx, e⟩
+
+theorem RowsEq.side (c1 c2 : List Nat) (left : Bool) {a a' b b' : List (List Nat)}
+    (h1 : RowsEq a a') (h2 : RowsEq b b') :
+    RowsEq (side c1 c2 a b left) (side c1 c2 a' b' left) := by
+  intro r
+  rw [mem_side, mem_side]
+  constructor
+  · rintro ⟨x, hx, y, hy, e⟩; exact ⟨x, (h1 x).mp hx, y, (h2 y).mp hy, e⟩
+  · rintro ⟨x, hx, y, hy, e⟩; exact ⟨x, (h1 x).mpr hx, y, (h2 y).mpr hy, e⟩
+
+theorem RowsEq.append {a a' b b' : List (List Nat)} (h1 : RowsEq a a') (h2 : RowsEq b b') :
+    RowsEq (a ++ b) (a' ++ b') := by
+  intro r
+  rw [List.mem_append, List.mem_append, h1 r, h2 r]
+
+theorem RowsEq.cross {a a' b b' : List (List Nat)} (h1 : RowsEq a a') (h2 : RowsEq b b') :
+    RowsEq (a.flatMap fun x => b.map fun y => x ++ y) (a'.flatMap fun x => b'.map fun y => x ++ y) := by
+  intro r
+  simp only [List.mem_flatMap, List.mem_map]
+  constructor
+  · rintro ⟨x, hx, y, hy, e⟩; exact ⟨x, (h1 x).mp hx, y, (h2 y).mp hy, e⟩
+  · rintro ⟨x, hx, y, hy, e⟩; exact ⟨x, (h1 x).mpr hx, y, (h2 y).mpr hy, e⟩
+
+/-- membership in the rows of a join is determined by the membership predicates of the inputs
+(and the result columns do not depend on the rows beyond their emptiness) -/
+theorem foj_congr {T1 T1' T2 T2' : Rel} (h1 : RelEq T1 T1') (h2 : RelEq T2 T2') :
+    RelEq (foj T1 T2) (foj T1' T2') := by
+  obtain ⟨c1, r1⟩ := T1
+  obtain ⟨c1', r1'⟩ := T1'
+  obtain ⟨c2, r2⟩ := T2
+  obtain ⟨c2', r2'⟩ := T2'
+  obtain ⟨e1, h1⟩ := h1
+  obtain ⟨e2, h2⟩ := h2
+  simp only at e1 e2 h1 h2
+  subst e1 e2
+  rw [foj_eq, foj_eq]
+  simp only [h1.isEmpty, h2.isEmpty]
+  split
+  · exact ⟨rfl, RowsEq.append (h1.pick _ _) (h2.pick _ _)⟩
+  · split
+    · exact ⟨rfl, RowsEq.cross h1 h2⟩
+    · refine ⟨rfl, ?_⟩
+      intro r
+      simp only [mem_dedupKeepFirst]
+      exact RowsEq.append (RowsEq.side _ _ _ h1 h2) (RowsEq.side _ _ _ h1 h2) r
+
+theorem foldl_foj_congr :
+    ∀ {rs rs' : List Rel}, List.Forall₂ RelEq rs rs' → ∀ {acc acc' : Rel}, RelEq acc acc' →
+      RelEq (rs.foldl foj acc) (rs'.foldl foj acc')
+  | _, _, .nil, _, _, h => h
+  | _, _, .cons hR hrs, _, _, h => by
+    rw [List.foldl_cons, List.foldl_cons]
+    exact foldl_foj_congr hrs (foj_congr h hR)
+
+/-- the n-ary join: same shape of result, same columns, same set of rows -/
+theorem foldJoin_congr {rs rs' : List Rel} (h : List.Forall₂ RelEq rs rs') :
+    (foldJoin rs = none ∧ foldJoin rs' = none) ∨
+      ∃ J J', foldJoin rs = some J ∧ foldJoin rs' = some J' ∧ RelEq J J' := by
+  cases h with
+  | nil => exact .inl ⟨rfl, rfl⟩
+  | cons hR hrs => exact .inr ⟨_, _, rfl, rfl, foldl_foj_congr hrs hR⟩
+
+end Join
+
+/-- two first-order states denote the same family of finite maps -/
+def SEq {ι : Type} [DecidableEq ι] {α : Type} (s s' : FState ι α) : Prop :=
+  ∀ j, TEq (s.get j) (s'.get j)
+
+/-- the duplicate merge of `writeMerged` on a whole (non-empty) list of candidates -/
+def mergeAll {α : Type} [LinearOrder α] : List (Bounds α) → Option (Bounds α)
+  | [] => none
+  | c :: cs => some (cs.foldl mergeB c)
+
+namespace Join
+
+/-! ### `TEq`, `SEq` are congruences for the table and state operations -/
+
+section Congr
+variable {ι : Type} [DecidableEq ι] {α : Type}
+
+theorem _root_.LNN.TEq.refl (t : Table α) : TEq t t := fun _ => rfl
+theorem _root_.LNN.TEq.symm {t t' : Table α} (h : TEq t t') : TEq t' t := fun g => (h g).symm
+theorem _root_.LNN.TEq.trans {t t' t'' : Table α} (h : TEq t t') (h' : TEq t' t'') : TEq t t'' :=
+  fun g => (h g).trans (h' g)
+
+theorem _root_.LNN.TEq.mem_keys {t t' : Table α} (h : TEq t t') (g : Gr) : g ∈ t.keys ↔ g ∈ t'.keys := by
+  rw [← denote_isSome_iff, ← denote_isSome_iff, h g]
+
+theorem _root_.LNN.TEq.addg {t t' : Table α} (h : TEq t t') (w : Bounds α) {gs gs' : List Gr}
+    (hg : ∀ g, g ∈ gs ↔ g ∈ gs') : TEq (Table.addg w t gs) (Table.addg w t' gs') := by
+  intro g
+  rw [denote_addg, denote_addg, h g]
+  simp only [hg g]
+
+theorem _root_.LNN.TEq.setB {t t' : Table α} (h : TEq t t') (g : Gr) (b : Bounds α) :
+    TEq (t.setB g b) (t'.setB g b) := by
+  intro g'
+  rw [denote_setB, denote_setB, h g']
+
+theorem _root_.LNN.TEq.addData {t t' : Table α} (h : TEq t t') (w : Bounds α) (g : Gr) (b : Bounds α) :
+    TEq (Table.addData w t g b) (Table.addData w t' g b) := by
+  intro g'
+  rw [denote_addData, denote_addData, h g']
+
+theorem _root_.LNN.TEq.resetBounds {t t' : Table α} (h : TEq t t') : TEq t.resetBounds t'.resetBounds := by
+  intro g
+  rw [denote_resetBounds, denote_resetBounds, h g]
+
+theorem _root_.LNN.TEq.flushB {t t' : Table α} (h : TEq t t') (b : Bounds α) :
+    TEq (Table.flushB b t) (Table.flushB b t') := by
+  intro g
+  rw [denote_flushB, denote_flushB, h g]
+
+theorem _root_.LNN.TEq.getD {t t' : Table α} (h : TEq t t') (w : Bounds α) (g : Gr) :
+    Table.getD w t g = Table.getD w t' g := by
+  rw [getD_eq_denote, getD_eq_denote, h g]
+
+theorem _root_.LNN.TEq.has {t t' : Table α} (h : TEq t t') (g : Gr) : t.has g = t'.has g := by
+  rw [← denote_isSome, ← denote_isSome, h g]
+
+theorem get_set (s : FState ι α) (i j : ι) (t : Table α) :
+    (s.set i t).get j = if i = j then t else s.get j := by
+  by_cases h : i = j
+  · subst h; rw [get_set_self, if_pos rfl]
+  · rw [get_set_ne _ h, if_neg h]
+
+theorem _root_.LNN.SEq.refl (s : FState ι α) : SEq s s := fun _ => TEq.refl _
+
+theorem _root_.LNN.SEq.set {s s' : FState ι α} (h : SEq s s') (i : ι) {t t' : Table α} (ht : TEq t t') :
+    SEq (s.set i t) (s'.set i t') := by
+  intro j
+  rw [get_set, get_set]
+  split
+  · exact ht
+  · exact h j
+
+/-- same formulae in the same order, same SETS of groundings -/
+def PairsEq (p p' : ι × List Gr) : Prop := p.1 = p'.1 ∧ ∀ g, g ∈ p.2 ↔ g ∈ p'.2
+
+theorem _root_.LNN.SEq.addAll (kb : FKB ι α) :
+    ∀ {ps ps' : List (ι × List Gr)}, List.Forall₂ PairsEq ps ps' →
+      ∀ {s s' : FState ι α}, SEq s s' → SEq (addAll kb s ps) (addAll kb s' ps')
+  | _, _, .nil, _, _, h => h
+  | _, _, .cons (a := p) (b := p') hp hps, s, s', h => by
+    rw [addAll_cons, addAll_cons]
+    apply LNN.SEq.addAll kb hps
+    obtain ⟨e, hg⟩ := hp
+    rw [← e]
+    exact LNN.SEq.set h _ (LNN.TEq.addg (h p.1) _ hg)
+
+theorem _root_.LNN.SEq.addAll_single (kb : FKB ι α) (i : ι) {gs gs' : List Gr}
+    (hg : ∀ g, g ∈ gs ↔ g ∈ gs') {s s' : FState ι α} (h : SEq s s') :
+    SEq (addAll kb s [(i, gs)]) (addAll kb s' [(i, gs')]) :=
+  LNN.SEq.addAll kb (List.Forall₂.cons (a := (i, gs)) (b := (i, gs')) ⟨rfl, hg⟩ .nil) h
+
+theorem forall₂_map_map {A B : Type} {R : B → B → Prop} {f f' : A → B} :
+    ∀ {l : List A}, (∀ x ∈ l, R (f x) (f' x)) → List.Forall₂ R (l.map f) (l.map f')
+  | [], _ => .nil
+  | x :: _, h => .cons (h x List.mem_cons_self)
+      (forall₂_map_map fun y hy => h y (List.mem_cons_of_mem _ hy))
+
+theorem forall₂_zip_map {A B C : Type} {R : A × C → A × C → Prop} {f f' : B → C} :
+    ∀ {l₁ : List A} {l₂ : List B}, (∀ a, ∀ b ∈ l₂, R (a, f b) (a, f' b)) →
+      List.Forall₂ R (l₁.zip (l₂.map f)) (l₁.zip (l₂.map f'))
+  | [], _, _ => by simp
+  | _ :: _, [], _ => by simp
+  | a :: l₁, b :: l₂, h => by
+    simp only [List.map_cons, List.zip_cons_cons]
+    exact .cons (h a b List.mem_cons_self)
+      (forall₂_zip_map fun a' b' hb' => h a' b' (List.mem_cons_of_mem _ hb'))
+
+theorem relsOf_congr (kb : FKB ι α) (i : ι) {s s' : FState ι α} (h : SEq s s') :
+    List.Forall₂ RelEq (relsOf kb i s) (relsOf kb i s') := by
+  unfold relsOf
+  apply forall₂_map_map
+  intro p _
+  exact ⟨rfl, fun g => LNN.TEq.mem_keys (h p.1) g⟩
+
+theorem homGs_congr (kb : FKB ι α) (i : ι) (down : Bool) {s s' : FState ι α} (h : SEq s s')
+    (g : Gr) : g ∈ homGs kb i down s ↔ g ∈ homGs kb i down s' := by
+  unfold homGs
+  rw [mem_unionKeys, mem_unionKeys]
+  simp only [List.mem_append, List.mem_map]
+  constructor
+  · rintro ⟨l, (⟨j, hj, rfl⟩ | hl), hg⟩
+    · exact ⟨_, .inl ⟨j, hj, rfl⟩, (LNN.TEq.mem_keys (h j) g).mp hg⟩
+    · cases down with
+      | false => simp at hl
+      | true =>
+        simp only [if_true, List.mem_singleton] at hl
+        subst hl
+        exact ⟨_, .inr (by simp), (LNN.TEq.mem_keys (h i) g).mp hg⟩
+  · rintro ⟨l, (⟨j, hj, rfl⟩ | hl), hg⟩
+    · exact ⟨_, .inl ⟨j, hj, rfl⟩, (LNN.TEq.mem_keys (h j) g).mpr hg⟩
+    · cases down with
+      | false => simp at hl
+      | true =>
+        simp only [if_true, List.mem_singleton] at hl
+        subst hl
+        exact ⟨_, .inr (by simp), (LNN.TEq.mem_keys (h i) g).mpr hg⟩
+
+omit [DecidableEq ι] in
+theorem mem_ogsOf {n : FNode ι α} {J : Rel} {g : Gr} :
+    g ∈ ogsOf n J ↔ ∃ r ∈ J.rows, Rel.project J.cols r (List.range (numVars n)) = g := by
+  simp [ogsOf]
+
+omit [DecidableEq ι] in
+theorem ogsOf_congr (n : FNode ι α) {J J' : Rel} (h : RelEq J J') (g : Gr) :
+    g ∈ ogsOf n J ↔ g ∈ ogsOf n J' := by
+  rw [mem_ogsOf, mem_ogsOf, h.1]
+  constructor
+  · rintro ⟨r, hr, e⟩; exact ⟨r, (h.2 r).mp hr, e⟩
+  · rintro ⟨r, hr, e⟩; exact ⟨r, (h.2 r).mpr hr, e⟩
+
+/-- GROUNDING MANAGEMENT IS ORDER-FREE: on states that denote the same finite maps it produces
+states that denote the same finite maps, and returns the same SET of operator groundings. -/
+theorem groundings_congr (kb : FKB ι α) (i : ι) (down : Bool) {s s' : FState ι α} (h : SEq s s') :
+    SEq (groundings kb i down s).1 (groundings kb i down s').1 ∧
+      (((groundings kb i down s).2 = none ∧ (groundings kb i down s').2 = none) ∨
+        ∃ ogs per ogs' per', (groundings kb i down s).2 = some (ogs, per) ∧
+          (groundings kb i down s').2 = some (ogs', per') ∧ ∀ g, g ∈ ogs ↔ g ∈ ogs') := by
+  cases hh : isHomogeneous (kb i) with
+  | true =>
+    rw [groundings_homog kb i down s hh, groundings_homog kb i down s' hh]
+    refine ⟨?_, .inr ⟨_, _, _, _, rfl, rfl, homGs_congr kb i down h⟩⟩
+    dsimp only
+    refine LNN.SEq.addAll_single kb i (homGs_congr kb i down h) ?_
+    refine LNN.SEq.addAll kb ?_ h
+    apply forall₂_map_map
+    intro j _
+    exact ⟨rfl, homGs_congr kb i down h⟩
+  | false =>
+    rcases foldJoin_congr (relsOf_congr kb i h) with ⟨h1, h2⟩ | ⟨J, J', h1, h2, hJ⟩
+    · rw [groundings_hetero_none kb i down s hh h1, groundings_hetero_none kb i down s' hh h2]
+      exact ⟨h, .inl ⟨rfl, rfl⟩⟩
+    · cases hne : J.rows.isEmpty with
+      | true =>
+        have hne' : J'.rows.isEmpty = true := by rw [← hJ.2.isEmpty]; exact hne
+        rw [groundings_hetero_empty kb i down s hh h1 hne,
+          groundings_hetero_empty kb i down s' hh h2 hne']
+        exact ⟨h, .inl ⟨rfl, rfl⟩⟩
+      | false =>
+        have hne' : J'.rows.isEmpty = false := by rw [← hJ.2.isEmpty]; exact hne
+        rw [groundings_hetero kb i down s hh h1 hne, groundings_hetero kb i down s' hh h2 hne']
+        refine ⟨?_, .inr ⟨_, _, _, _, rfl, rfl, ogsOf_congr _ hJ⟩⟩
+        dsimp only
+        refine LNN.SEq.addAll_single kb i (ogsOf_congr _ hJ) ?_
+        refine LNN.SEq.addAll kb ?_ h
+        unfold perOf
+        apply forall₂_zip_map
+        intro a m _
+        refine ⟨rfl, fun g => ?_⟩
+        simp only [List.mem_map, hJ.1]
+        constructor
+        · rintro ⟨r, hr, e⟩; exact ⟨r, (hJ.2 r).mp hr, e⟩
+        · rintro ⟨r, hr, e⟩; exact ⟨r, (hJ.2 r).mpr hr, e⟩
+
+end Congr
+
+/-! ### the duplicate merge -/
+
+section Merge
+variable {α : Type} [LinearOrder α]
+
+theorem mergeB_comm (a b : Bounds α) : mergeB a b = mergeB b a := by
+  simp only [mergeB, max_comm, min_comm]
+
+theorem mergeB_assoc (a b c : Bounds α) : mergeB (mergeB a b) c = mergeB a (mergeB b c) := by
+  simp only [mergeB, max_assoc, min_assoc]
+
+theorem mergeB_right_comm (a b c : Bounds α) : mergeB (mergeB a b) c = mergeB (mergeB a c) b := by
+  rw [mergeB_assoc, mergeB_comm b c, ← mergeB_assoc]
+
+theorem foldl_mergeB_perm {cs cs' : List (Bounds α)} (h : cs.Perm cs') (c : Bounds α) :
+    cs.foldl mergeB c = cs'.foldl mergeB c :=
+  h.foldl_eq' (fun x _ y _ z => mergeB_right_comm z x y) c
+
+theorem mergeAll_perm {l l' : List (Bounds α)} (h : l.Perm l') : mergeAll l = mergeAll l' := by
+  induction h with
+  | nil => rfl
+  | cons x h _ => simp only [mergeAll, foldl_mergeB_perm h]
+  | swap x y l => simp only [mergeAll, List.foldl_cons, mergeB_comm x y]
+  | trans _ _ ih1 ih2 => exact ih1.trans ih2
+
+end Merge
+
+/-! ### `writeMerged` does not depend on the order of the proposals -/
+
+section Write
+variable {α : Type} [Field α] [LinearOrder α]
+
+omit [Field α] [LinearOrder α] in
+theorem setB_comm (t : Table α) {x y : Gr} (h : x ≠ y) (b b' : Bounds α) :
+    (t.setB x b).setB y b' = (t.setB y b').setB x b := by
+  simp only [Table.setB, List.map_map]
+  apply List.map_congr_left
+  intro r _
+  simp only [Function.comp]
+  by_cases hx : r.g = x
+  · simp [hx, h]
+  · by_cases hy : r.g = y
+    · simp [hy, Ne.symm h]
+    · simp [hx, hy]
+
+/-- the candidates that land on row `r` (key `g`) -/
+def candsOf (r : Row α) (props : List (Gr × Bounds α)) (g : Gr) : List (Bounds α) :=
+  (props.filter (·.1 == g)).map fun p => (aggregate .both r.b p.2).1
+
+def mergeStep (acc : Table α × α) (g : Gr) (r : Row α) : Option (Bounds α) → Table α × α
+  | none => acc
+  | some m => (acc.1.setB g m, acc.2 + (|m.lo - r.b.lo| + |m.hi - r.b.hi|))
+
+/-- one step of the fold inside `writeMerged` -/
+def stepW (t : Table α) (props : List (Gr × Bounds α)) (acc : Table α × α) (g : Gr) : Table α × α :=
+  match t.find? g with
+  | none => acc
+  | some r => mergeStep acc g r (mergeAll (candsOf r props g))
+
+theorem writeMerged_eq (t : Table α) (props : List (Gr × Bounds α)) :
+    writeMerged t props = (dedupKeepFirst (props.map (·.1))).foldl (stepW t props) (t, 0) := by
+  unfold writeMerged
+  apply List.foldl_ext
+  intro acc g _
+  unfold stepW
+  cases t.find? g with
+  | none => rfl
+  | some r =>
+    simp only
+    unfold candsOf
+    cases (List.map (fun p : Gr × Bounds α => (aggregate BoundSel.both r.b p.2).1)
+      (List.filter (fun x => x.1 == g) props)) with
+    | nil => rfl
+    | cons c cs => rfl
+
+theorem candsOf_perm (r : Row α) {props props' : List (Gr × Bounds α)} (h : props.Perm props')
+    (g : Gr) : (candsOf r props g).Perm (candsOf r props' g) :=
+  (h.filter _).map _
+
+theorem stepW_perm (t : Table α) {props props' : List (Gr × Bounds α)} (h : props.Perm props') :
+    stepW t props = stepW t props' := by
+  funext acc g
+  unfold stepW
+  cases t.find? g with
+  | none => rfl
+  | some r => simp only [mergeAll_perm (candsOf_perm r h g)]
+
+theorem stepW_comm (t : Table α) (props : List (Gr × Bounds α)) (x y : Gr) (z : Table α × α) :
+    stepW t props (stepW t props z x) y = stepW t props (stepW t props z y) x := by
+  by_cases hxy : x = y
+  · subst hxy; rfl
+  · unfold stepW
+    cases t.find? x with
+    | none => rfl
+    | some rx =>
+      cases t.find? y with
+      | none => rfl
+      | some ry =>
+        simp only
+        cases mergeAll (candsOf rx props x) with
+        | none => rfl
+        | some mx =>
+          cases mergeAll (candsOf ry props y) with
+          | none => rfl
+          | some my =>
+            simp only [mergeStep]
+            rw [setB_comm _ hxy, add_right_comm]
+
+/-- the downward write-back onto an operand table is invariant under any reordering of the
+proposals (new table AND reported amount, as values — not just up to `TEq`) -/
+theorem writeMerged_perm (t : Table α) {props props' : List (Gr × Bounds α)}
+    (h : props.Perm props') : writeMerged t props = writeMerged t props' := by
+  rw [writeMerged_eq, writeMerged_eq, stepW_perm t h]
+  have hk : (dedupKeepFirst (props.map (·.1))).Perm (dedupKeepFirst (props'.map (·.1))) := by
+    rw [List.perm_ext_iff_of_nodup (nodup_dedupKeepFirst _) (nodup_dedupKeepFirst _)]
+    intro a
+    rw [mem_dedupKeepFirst, mem_dedupKeepFirst]
+    exact (h.map _).mem_iff
+  exact hk.foldl_eq' (fun x _ y _ z => stepW_comm t props' x y z) _
+
+end Write
+
+end Join
+
+/-- `add_data` with a whole dictionary of facts, entry by entry -/
+def loadFacts {α : Type} (w : Bounds α) (t : Table α) (fs : List (Gr × Bounds α)) : Table α :=
+  fs.foldl (fun t f => Table.addData w t f.1 f.2) t
+
+namespace Join
+
+section Load
+variable {α : Type}
+
+theorem loadFacts_cons (w : Bounds α) (t : Table α) (f : Gr × Bounds α) (fs : List (Gr × Bounds α)) :
+    loadFacts w t (f :: fs) = loadFacts w (Table.addData w t f.1 f.2) fs := rfl
+
+theorem denote_loadFacts_of_not_mem (w : Bounds α) (g : Gr) :
+    ∀ (fs : List (Gr × Bounds α)) (t : Table α), g ∉ fs.map (·.1) →
+      Table.denote (loadFacts w t fs) g = Table.denote t g
+  | [], _, _ => rfl
+  | f :: fs, t, h => by
+    simp only [List.map_cons, List.mem_cons, not_or] at h
+    rw [loadFacts_cons, denote_loadFacts_of_not_mem w g fs _ h.2, denote_addData, if_neg h.1]
+
+theorem denote_loadFacts_of_mem (w : Bounds α) (g : Gr) (b : Bounds α) :
+    ∀ (fs : List (Gr × Bounds α)) (t : Table α), (fs.map (·.1)).Nodup → (g, b) ∈ fs →
+      Table.denote (loadFacts w t fs) g = some (b, b)
+  | [], _, _, h => by cases h
+  | f :: fs, t, hn, h => by
+    simp only [List.map_cons, List.nodup_cons] at hn
+    rw [loadFacts_cons]
+    rcases List.mem_cons.mp h with rfl | h
+    · rw [denote_loadFacts_of_not_mem w _ fs _ hn.1, denote_addData, if_pos rfl]
+    · exact denote_loadFacts_of_mem w g b fs _ hn.2 h
+
+theorem loadFacts_congr (w : Bounds α) :
+    ∀ (fs : List (Gr × Bounds α)) {t t' : Table α}, TEq t t' →
+      TEq (loadFacts w t fs) (loadFacts w t' fs)
+  | [], _, _, h => h
+  | f :: fs, _, _, h => by
+    rw [loadFacts_cons, loadFacts_cons]
+    exact loadFacts_congr w fs (h.addData w f.1 f.2)
+
+end Load
 
 end Join
 end LNN
